@@ -264,3 +264,22 @@ func CountLines(src string) int {
 	n := strings.Count(src, "\n") + 1
 	return n
 }
+
+// CompileMaybeLM is Compile, except that for a quarter of the sources (chosen by a hash of the
+// source, so it is a pure function of the case) the compilation runs with line markers switched on
+// and an input path given; the marker lines are then removed. Markers are not code, so every
+// property about the emitted code must hold for that output just the same.
+func CompileMaybeLM(src string, o Opts) Result {
+	if o.LineMarkers || hash64(src)%4 != 0 {
+		return Compile(src, o)
+	}
+	o.LineMarkers = true
+	if o.Path == "" {
+		o.Path = "data/scripts/check.pory"
+	}
+	r := Compile(src, o)
+	if r.Err == nil && r.Panic == nil && !r.Budget {
+		r.Out = StripMarkers(r.Out)
+	}
+	return r
+}
